@@ -18,6 +18,8 @@ import felupe.mechanics._step as _step_mod
 import felupe.tools._newton as _newton_mod
 
 from .kernel import (
+    Unexpected,
+    newton_failure,
     HarnessError,
     origin,
     Discard,
@@ -296,12 +298,18 @@ class Engine:
         try:
             res = REAL_NEWTON(*args, **kw)
         except BaseException as e:
-            if isinstance(e, (Violation, Discard, HarnessError)):
+            if isinstance(e, (Violation, Discard, HarnessError, Unexpected)):
                 raise
             if origin(e) == "harness":
                 import traceback
 
                 raise HarnessError("".join(traceback.format_exception(e))[-3000:]) from e
+            if origin(e) == "felupe" and not self.fired and not newton_failure(e):
+                import traceback
+
+                tb = traceback.extract_tb(e.__traceback__)
+                where = next((f"{fr.filename.split('/felupe/')[-1]}:{fr.name}" for fr in reversed(tb) if "/felupe/" in fr.filename), "?")
+                raise Unexpected(e, where) from e
             c["outcome"] = "raised"
             c["exc"] = e
             c["exc_type"] = type(e).__name__
@@ -424,7 +432,7 @@ class Engine:
         try:
             job.evaluate(**kw)
         except BaseException as e:
-            if isinstance(e, (SystemExit, GeneratorExit, Violation, Discard, HarnessError)):
+            if isinstance(e, (SystemExit, GeneratorExit, Violation, Discard, HarnessError, Unexpected)):
                 raise
             if origin(e) == "harness":
                 import traceback
